@@ -650,7 +650,7 @@ Section Contract.
     destruct (get_impl w i) as [m|]; [|apply okresT_throw; assumption].
     destruct (g_indexAt (i_conns m) x) as [k|]; [|apply IH; assumption].
     destruct (g_get (i_conns m) k) as [c|]; [|apply IH; assumption].
-    destruct (c_blocked c); [apply IH; assumption|].
+    destruct (c_blocked c || c_tbd c); [apply IH; assumption|].
     pose proof (fire_ok w i k c args Hw) as Hf.
     destruct (fire R w i k c args) as [w' [e|]]; [exact Hf|].
     eapply okresT_trans; [exact Hf|]. apply IH. apply Hf.
